@@ -2,6 +2,7 @@
   C09 — Only healthy targets receive traffic, in fair rotation.
 -/
 import KamalProxy.Proofs.Proxy
+import KamalProxy.Proofs.Rotation
 import KamalProxy.Model.Request
 namespace KamalProxy.C09
 open KamalProxy KamalProxy.Proxy
@@ -42,6 +43,55 @@ theorem C09_probe_transitions (t : Tgt) :
   · intro h; simp [probeUpdate, h]
   · intro h; simp [probeUpdate, h]
   · intro h; unfold probeUpdate; cases hst : t.st <;> simp_all
+
+/-! ### whole-run rotation (any number of consecutive requests, no bound) -/
+
+/-- While the rotation is stable (every member is a live target record that is not draining, and nothing
+    but requests happens), the j-th of ANY number of consecutive requests is answered by the target at
+    position `(idx + 1 + j) % k` of the healthy list — the run-level form of "strict rotation". -/
+theorem C09_run_rotation {w : World} {lb : Nat} {l : Lb} (rids : List Nat) (hl : getL w lb = some l)
+    (hne : l.healthy ≠ []) (hs : Accepting w l.healthy) :
+    (claims w lb rids).2 =
+      (List.range rids.length).map fun j => l.healthy[(l.idx + 1 + j) % l.healthy.length]? :=
+  claims_positions rids hl hne hs
+
+/-- Fairness over whole runs: in every window of k consecutive requests of such a run (k the size of the
+    healthy set), every position of the healthy list is served — hence n requests give each healthy target
+    ⌊n/k⌋ or ⌈n/k⌉. -/
+theorem C09_run_window_covers {w : World} {lb : Nat} {l : Lb} (rids : List Nat) (hl : getL w lb = some l)
+    (hne : l.healthy ≠ []) (hs : Accepting w l.healthy) (s : Nat) (hw : s + l.healthy.length ≤ rids.length)
+    (p : Nat) (hp : p < l.healthy.length) :
+    ∃ j, j < l.healthy.length ∧ (claims w lb rids).2[s + j]? = some (l.healthy[p]?) := by
+  have hk : 0 < l.healthy.length := List.length_pos_iff.mpr hne
+  obtain ⟨j, hj, hm⟩ := window_hits_all l.healthy.length (l.idx + 1 + s) p hk hp
+  refine ⟨j, hj, ?_⟩
+  rw [C09_run_rotation rids hl hne hs, List.getElem?_map, List.getElem?_range (by omega)]
+  simp only [Option.map_some, ← Nat.add_assoc, hm]
+
+/-- ... and no position is served twice within such a window (positions as given by `C09_run_rotation`). -/
+theorem C09_run_window_distinct (l : Lb) (s i j : Nat)
+    (hi : i < l.healthy.length) (hj : j < l.healthy.length)
+    (h : (l.idx + 1 + (s + i)) % l.healthy.length = (l.idx + 1 + (s + j)) % l.healthy.length) : i = j := by
+  have := window_injective l.healthy.length (l.idx + 1 + s) i j hi hj (by simpa [Nat.add_assoc] using h)
+  exact this
+
+/-- non-vacuity: a concrete stable rotation of three targets; seven consecutive requests go 2,3,1,2,3,1,2 -/
+def w3 : World :=
+  { tgts := [{ id := 1, name := [], lb := 9, st := .healthy, nextTick := 0, interval := 1, hcTimeout := 1 },
+             { id := 2, name := [], lb := 9, st := .healthy, nextTick := 0, interval := 1, hcTimeout := 1 },
+             { id := 3, name := [], lb := 9, st := .healthy, nextTick := 0, interval := 1, hcTimeout := 1 }],
+    lbs := [{ id := 9, targets := [1, 2, 3], healthy := [1, 2, 3], idx := 0 }] }
+
+example : getL w3 9 = some { id := 9, targets := [1, 2, 3], healthy := [1, 2, 3], idx := 0 } ∧
+    Accepting w3 [1, 2, 3] ∧
+    (claims w3 9 [11, 12, 13, 14, 15, 16, 17]).2 = [some 2, some 3, some 1, some 2, some 3, some 1, some 2] := by
+  refine ⟨rfl, ?_, by decide⟩
+  intro tid hm
+  simp only [List.mem_cons, List.not_mem_nil, or_false] at hm
+  rcases hm with rfl | rfl | rfl
+  · exact ⟨_, rfl, by decide⟩
+  · exact ⟨_, rfl, by decide⟩
+  · exact ⟨_, rfl, by decide⟩
 
 /-- F19 (finding): "a target whose latest probe failed receives no new requests" is false when
     the failed probe falls into a drain of that target: the probe leaves `draining` alone and the
